@@ -47,7 +47,18 @@ def call_real(alg, form):
             mv = getattr(alg, ctor)(**kw)
         elif form.get('mapping') is not None:
             kw.pop('values', None)
-            mv = alg.multivector(dict(form['mapping']), **kw)
+            m = dict(form['mapping'])
+            mt = form.get('mapping_type', 'dict')
+            if mt == 'MappingProxyType':
+                import types
+                m = types.MappingProxyType(m)
+            elif mt == 'UserDict':
+                import collections
+                m = collections.UserDict(m)
+            elif mt == 'OrderedDict':
+                import collections
+                m = collections.OrderedDict(m)
+            mv = alg.multivector(m, **kw)
         else:
             mv = alg.multivector(**kw)
         return mv, None
@@ -199,7 +210,8 @@ def gen_forms(rng, alg, graded, n):
                 vs = vs[:-1] if rng.random() < 0.5 else vs + [val()]
             if kind == 'mapping':
                 ks2 = [alg.bin2canon[k] if rng.random() < 0.3 else k for k in ks]
-                forms.append({'mapping': list(zip(ks2, vs))})
+                # any Mapping is a mapping: dict, and mapping types that are not dict subclasses
+                forms.append({'mapping': list(zip(ks2, vs)), 'mapping_type': rng.choice(['dict', 'dict', 'MappingProxyType', 'UserDict', 'OrderedDict'])})
             else:
                 f = {'keys': ks, 'values': vs}
                 if rng.random() < 0.25:
@@ -223,7 +235,13 @@ def gen_forms(rng, alg, graded, n):
                 items['e' + hexd(min(15, alg.start_index + d))] = val()                 # generator outside the algebra
             elif r < 0.8 and len(nme) >= 3:
                 alt = [s for s, _ in spellings_of(nme, rng, 24) if s != nme]
-                items[rng.choice(alt)] = val()                                          # same blade twice
+                if len(alt) >= 2 and rng.random() < 0.5:
+                    a1, a2 = rng.sample(alt, 2)
+                    items = {a1: val(), a2: val()}                                      # same blade twice, neither spelled canonically
+                    if rng.random() < 0.4:
+                        items[rng.choice(names)] = val()
+                else:
+                    items[rng.choice(alt)] = val()                                      # same blade twice
             else:
                 items = {'e' + hexd(min(15, alg.start_index + d)) + nme[1:2]: val()}
             forms.append({'items': items})
@@ -308,6 +326,35 @@ def expected_ctor_grades(ctor, d):
     return gs
 
 
+def duplicate_spelling_pass(ctx):
+    """several keyword spellings of one blade in a single call (canonical + permuted, or two permuted spellings of either
+    parity, in either order, alone or next to other blades): the call is refused, or else every supplied coefficient reads
+    back under the spelling it was supplied with - a supplied coefficient is never silently dropped"""
+    from kingdon import Algebra
+    rng = ctx.rng
+    algs = [('R3', Algebra(3)), ('3DPGA', Algebra.fromname('3DPGA')), ('R4', Algebra(4)), ('R3g', Algebra(3, graded=True))]
+    for tag, alg in algs:
+        for name in [n for n in alg.canon2bin if len(n) >= 4]:
+            sps = [s for s, _ in spellings_of(name, rng, 24)]
+            pairs = [(a, b) for a in sps for b in sps if a != b]
+            for a, b in (pairs if len(pairs) <= 30 else rng.sample(pairs, 30 if ctx.quick else 120)):
+                items = {a: rng.randint(2, 9), b: rng.randint(2, 9)}
+                if rng.random() < 0.3:
+                    other = rng.choice([n for n in alg.canon2bin if n != name])
+                    items = {**{other: 1}, **items} if rng.random() < 0.5 else {**items, other: 1}
+                case = {'algebra': tag, 'keywords': items}
+                ctx.case(('dup-spelling', tag, tuple(items.items())), tag='duplicate-spelling')
+                try:
+                    x = alg.multivector(**items)
+                except Exception:
+                    ctx.count('duplicate-spelling:refused')
+                    continue
+                back = {k: getattr(x, k) for k in items}
+                if back != items:
+                    ctx.violation('supplied-coefficient-dropped', case, items, back, key='roundtrip:duplicate-spelling')
+                    break
+
+
 def simp_func_pass(ctx):
     """filter() without an argument on algebras with a custom simp_func (predicate style and value style): it selects by
     simp_func and reflects exactly the supplied coefficients"""
@@ -355,6 +402,7 @@ def run(ctx):
     cfgs.append(([1, -1], 4, None, False))
     cfgs.append(([0, 1, 1], 8, None, False))
     simp_func_pass(ctx)
+    duplicate_spelling_pass(ctx)
     lines, plan = [], []
     # several algebras are alive at the same time and are used alternately (shared-state defects)
     algs = [(make_algebra(sig, start, basis, graded=graded), sig, start, basis, graded) for sig, start, basis, graded in cfgs]
